@@ -48,7 +48,7 @@ P = {
  "C09": dict(
   technique="stateful property testing (proptest): generated adaptor pipelines (Vec<Op> programs) and consumption scripts; safe item count vs size_hint at every consumption point; libFuzzer+ASan pipeline fuzzing in the thorough tier",
   text="For every trusted-length adaptor and random pipelines of depth 1..6, after every prefix of a consumption script the upper size hint must equal the number of items actually obtainable by safe iteration; only then are the trusted collectors run and their length/content compared.",
-  note="Oracle never trusts the hint (counts with a cap); collectors only run when the hint was verified, so a violation cannot corrupt the harness. Generators with non-dyadic float steps are collected through an instrumented container that compares what a trusted source announced with what it yielded; to_trust wrappers are consumed from both ends. Thorough tier adds 8 libFuzzer campaigns (fz_iter: byte-decoded pipeline programs, collectors under ASan) and a Miri tier.",
+  note="Oracle never trusts the hint (counts with a cap); collectors only run when the hint was verified, so a violation cannot corrupt the harness. Generators with non-dyadic float steps are collected through an instrumented container that compares what a trusted source announced with what it yielded; to_trust wrappers are consumed from both ends. Thorough tier adds 8 libFuzzer campaigns (fz_iter: byte-decoded pipeline programs, collectors under ASan), a Miri tier, and the Polars companion binary restricted to its accessor sub-property (remaining-length law of the Polars container iterators; also with VERIF_POLARS=1 in the quick tier).",
   ref="6 C09"),
  "C10": dict(
   technique="property-based testing with instrumented containers (access-log / write-log monitors) implementing the public backend traits; libFuzzer+ASan on the real containers in the thorough tier",
